@@ -70,7 +70,10 @@ def _lists(cx, adt_path):
 
 
 def check(cx):
-    return _check(cx) + j7(cx) + j8(cx) + j9(cx) + j10(cx)
+    from . import c03
+    from . import c01
+    slot = [Finding(ID, 'J11', f.key, f.ok, f.msg, f.loc, f.witness) for f in c01.p3(cx, items=True) if ('subscriber::' in f.key or 'subject::' in f.key)] if not cx.control else []
+    return _check(cx) + j7(cx) + j8(cx) + j9(cx) + j10(cx) + slot + c03.envelopes(cx, ID)
 
 
 def j10(cx):
